@@ -22,6 +22,9 @@
 (*                    first byte (the request-side twin of the short-read  *)
 (*                    defect 0fe5cbd)                                      *)
 (*   "limit_unchecked" the re-encoded length is not compared with L        *)
+(*   "zero_read_unguarded" a zero-length Read runs the loop (the tree      *)
+(*                    before its fix: with nothing copied the reader took   *)
+(*                    the current message for drained and moved on)        *)
 (***************************************************************************)
 EXTENDS Integers, Sequences, FiniteSets, TLC
 
@@ -31,6 +34,7 @@ CONSTANTS
     CutIn,          \* 0: the client's stream is complete; m: it breaks off inside message m
     FirstMayBeEmpty,\* BOOLEAN: clientReqNeedsPrep or un-enveloped client: EOF before any message is one empty message
     Limit,
+    MinRead,        \* 0: the handler may also issue zero-length Reads (io.Reader: 0, nil, nothing changes)
     MaxRead,
     Variant
 
@@ -60,15 +64,16 @@ VARIABLES
     err,        \* r.err: "" | "eof" | text
     reported,   \* what was reported to the client through rw.reportReadError ("" nothing)
     got,        \* every byte the handler has been given, in order
-    lastN       \* result of the latest Read: <<n, err>>
-vars == <<next, envRemain, env, rbuf, hasBuf, first, err, reported, got, lastN>>
+    lastN,      \* result of the latest Read: <<n, err>>
+    lastK       \* size of the latest Read's buffer
+vars == <<next, envRemain, env, rbuf, hasBuf, first, err, reported, got, lastN, lastK>>
 
 Take(s, k) == SubSeq(s, 1, k)
 Drop(s, k) == SubSeq(s, k + 1, Len(s))
 MinOf(a, b) == IF a < b THEN a ELSE b
 
 Init == /\ next = 1 /\ envRemain = 0 /\ env = <<>> /\ rbuf = <<>> /\ hasBuf = FALSE /\ first = FALSE
-        /\ err = "" /\ reported = "" /\ got = <<>> /\ lastN = <<0, "">>
+        /\ err = "" /\ reported = "" /\ got = <<>> /\ lastN = <<0, "">> /\ lastK = 1
 
 St == [next |-> next, envRemain |-> envRemain, env |-> env, rbuf |-> rbuf, hasBuf |-> hasBuf, first |-> first,
        err |-> err, reported |-> reported, got |-> got, lastN |-> lastN]
@@ -116,10 +121,11 @@ Apply(st) ==
 \* a Prepare that failed inside the loop stops it: ReadLoop is re-entered with err set
 Read(k) ==
     /\ err = ""
-    /\ LET r == ReadLoop(St, k) IN Apply(r)
+    /\ LET r == IF k = 0 /\ Variant # "zero_read_unguarded" THEN [St EXCEPT !.lastN = <<0, "">>] ELSE ReadLoop(St, k) IN Apply(r)
+    /\ lastK' = k
 
 Done == err # "" /\ UNCHANGED vars
-Next == (\E k \in 1..MaxRead : Read(k)) \/ Done
+Next == (\E k \in MinRead..MaxRead : Read(k)) \/ Done
 Spec == Init /\ [][Next]_vars
 
 (***************************************************************************)
@@ -141,6 +147,6 @@ FailureNamed ==
         /\ err = (IF OutLens[GoodUpTo + 1] < 0 THEN "transform" ELSE "resource_exhausted")
         /\ reported = err
 \* io.Reader contract: a Read that reports no error returns at least one byte (buffers have size >= 1)
-Progress == lastN[2] = "" => (lastN[1] > 0 \/ got = <<>>)
+Progress == (lastN[2] = "" /\ lastK > 0) => (lastN[1] > 0 \/ got = <<>>)
 TypeOK == envRemain \in 0..EnvLen /\ next \in 1..(NMsg + 1)
 =============================================================================
